@@ -229,3 +229,14 @@ Example C03_example_inline_growth_interleaved :
   all_done (snd st) = true /\ persisted (fst st) = 7 /\ w_extra (s_word (fst st)) = 0 /\
   s_closed (fst st) = [0%nat].
 Proof. vm_compute. repeat split; reflexivity. Qed.
+
+(* the first open, by a process with a pending increment, of an existing file
+   that has no room: the opener's own refresh-lookup extends the file (its
+   cleanup runs inside the outer one); afterwards everything is persisted in the
+   file, the first mapping is closed, and the counter points into the second *)
+Example C03_example_open_of_full_file :
+  let st := run default_nops (repeat 0 60 ++ repeat 1 30)%nat
+      (mkS (3 * XUNIT) None None [] [] [] 0 false false None false, [changer FullFile; adder 4]) in
+  all_done (snd st) = true /\ persisted (fst st) = 7 /\ w_extra (s_word (fst st)) = 0 /\
+  s_cur (fst st) = Some 1%nat /\ s_ptr (fst st) = Some 1%nat /\ s_closed (fst st) = [0%nat] /\ s_full (fst st) = false.
+Proof. vm_compute. repeat split; reflexivity. Qed.
